@@ -72,6 +72,51 @@ def gen_correlated(rng, k):
     return realize(j), ('AIG' if k < 6 else rng.choice(['AIG', 'AIG', 'XAIG'])), params, 'all', 0
 
 
+def gen_twin_cones(rng, k):
+    """the same cone twice in one circuit — once over leaves that are correlated (one implies the other, so some leaf
+    vectors never occur and the smaller replacement may use them as don't-cares) and once over independent inputs (no
+    don't-cares): the two cones have the same number of leaves, the same size and the same local patterns, and differ
+    only in their care sets. Whatever is remembered about one cone must not be applied to the other."""
+    ins = ['x', 'y', 'z', 'w', 'p', 'q', 'r']
+    gad = k % 3
+    if gad == 0:
+        pre = [['m', 'AND', ['x', 'y']], ['u', 'AND', ['m', 'z']], ['n', 'OR', ['x', 'y']], ['v', 'OR', ['n', 'z']]]
+    elif gad == 1:
+        pre = [['u', 'AND', ['x', 'y']], ['v', 'OR', ['x', 'y']]]
+    else:
+        pre = [['u', 'GT', ['x', 'y']], ['v', 'XOR', ['x', 'y']]]
+    if k < 6:
+        tmpl = [['1', 'XOR', ['L0', 'L1']], ['2', 'XOR', ['L0', 'L2']], ['3', 'AND', ['1', '2']], ['f', 'XOR', ['3', 'L0']]]
+        basis = 'XAIG'
+    else:
+        tmpl, avail = [], ['L0', 'L1', 'L2']
+        for i in range(rng.choice([3, 4, 4, 5])):
+            ops = [rng.choice(avail), rng.choice(avail)]
+            if i >= 1:
+                ops[rng.randrange(2)] = tmpl[-1][0]
+            if ops[0] == ops[1]:
+                ops[1] = rng.choice([a for a in avail if a != ops[0]])
+            tmpl.append([str(i + 1) if i < 10 else 'f', rng.choice(['AND', 'OR', 'XOR', 'XOR', 'NAND', 'GT']), ops])
+            avail.append(tmpl[-1][0])
+        tmpl[-1][0] = 'f'
+        for g in tmpl[:-1]:
+            pass
+        basis = rng.choice(['XAIG', 'XAIG', 'AIG', 'FULL'])
+    names = {g[0] for g in tmpl}
+    pa, pb = rng.sample(['a', 'b', 'k', 'cone', 'T'], 2)
+
+    def inst(prefix, leaves):
+        ren = dict(zip(['L0', 'L1', 'L2'], leaves))
+        ren.update({nm: prefix + nm for nm in names})
+        return [[ren[g[0]], g[1], [ren[o] for o in g[2]]] for g in tmpl]
+    perm = ['u', 'v', 'w'] if k < 6 or rng.random() < 0.5 else rng.sample(['u', 'v', 'w'], 3)
+    A, B = inst(pa, perm), inst(pb, ['p', 'q', 'r'])
+    body = pre + (A + B if rng.random() < 0.5 else B + A)
+    j = {'gates': [[i, 'INPUT', []] for i in ins] + body, 'inputs': ins, 'outputs': [pa + 'f', pb + 'f'], 'blocks': []}
+    params = {'max_subcircuit_size': 9, 'cut_size': rng.choice([3, 3, 5]), 'cut_limit': 25, 'solver_time_limit_sec': 15}
+    return realize(j), basis, params, 'all', 0
+
+
 def gen_nary_cone(rng, k):
     """small cones around one gate with three or four operands (optionally behind negations): the
     function of such a cone needs more two-input gates than the cone has gates, so the replacement search
@@ -572,6 +617,11 @@ def search(ctx):
         cj, basis, params, cutmode, cutseed = gen_correlated(rng, k)
         ctx.case(json.dumps(['corr', cj['gates'], cj['outputs'], basis]))
         ctx.count('correlated_leaves')
+        check_case(ctx, cj, basis, params, cutmode, cutseed)
+    for k in range(ctx.scale(36, 200)):
+        cj, basis, params, cutmode, cutseed = gen_twin_cones(rng, k)
+        ctx.case(json.dumps(['twin', cj['gates'], cj['outputs'], basis, params]))
+        ctx.count('twin_cones')
         check_case(ctx, cj, basis, params, cutmode, cutseed)
     for k in range(ctx.scale(40, 200)):
         cj, basis, params, cutmode, cutseed = gen_nary_cone(rng, k)
